@@ -5,6 +5,7 @@
 (* A file is a sequence of LINES.  Line kinds:                             *)
 (*   "blank"      empty or white-space only                                *)
 (*   "code"       code without a log statement and without a comment       *)
+(*   "attr"       an attribute line (#[cfg(...)], #[allow(...)]): code too  *)
 (*   "cmt"        an ordinary comment line                                 *)
 (*   "cmtextra"   a comment that contains the directive text plus other    *)
 (*                text ("// breadlog:ignore please")                       *)
@@ -80,7 +81,7 @@ AtMostOneLine ==
 (* separated by a code or comment line: no effect *)
 SeparatedMeansNone ==
   \A i \in 1..Len(lines) : (lines[i] \in StmtLines /\ NearestNonBlankAbove(lines, i) # 0
-                              /\ lines[NearestNonBlankAbove(lines, i)] \in {"code", "cmt", "cmtextra", "stmt", "stmt2", "stmtml", "sameline"})
+                              /\ lines[NearestNonBlankAbove(lines, i)] \in {"code", "attr", "cmt", "cmtextra", "stmt", "stmt2", "stmtml", "sameline"})
                              => Effect(lines, i) = "none"
 (* a directive placed after the statement never affects it *)
 AfterMeansNone ==
